@@ -31,7 +31,7 @@ from pathlib import Path
 ROOT = Path(__file__).resolve().parent.parent
 LEAN = ROOT / 'lean'
 REPO = Path(os.environ.get('PFST_REPO', '/repo'))
-EVIDENCE = ROOT / 'evidence'
+EVIDENCE = Path(os.environ['VERIF_EVIDENCE_DIR']) if os.environ.get('VERIF_EVIDENCE_DIR') else ROOT / 'evidence'   # mutation trials write elsewhere
 REPLAYS = ROOT / 'replays'
 KNOWN = ROOT / 'known_findings.json'
 
@@ -175,13 +175,59 @@ class Ctx:
 
 
 def pmap(func, items, procs=16, chunksize=None):
-    """Parallel map with fork (so the repo import happens once in the parent)."""
+    """Parallel map: the items are cut into `procs` contiguous chunks, each chunk runs in a freshly forked process
+    (the repo import happened once in the parent; no pfst state leaks between chunks), results come back over a pipe."""
+    import pickle
     items = list(items)
     if len(items) < 8 or procs <= 1:
         return [func(x) for x in items]
-    ctx = mp.get_context('fork')
-    with ctx.Pool(procs, maxtasksperchild=1) as pool:     # a fresh worker per chunk: no pfst state leaks between chunks
-        return pool.map(func, items, chunksize or max(1, len(items) // (procs * 8)))
+    n = min(procs, len(items))
+    bounds = [(len(items) * k // n, len(items) * (k + 1) // n) for k in range(n)]
+    kids = []
+    for lo, hi in bounds:
+        r, w = os.pipe()
+        pid = os.fork()
+        if pid == 0:
+            os.close(r)
+            try:
+                try:
+                    out = ('ok', [func(x) for x in items[lo:hi]])
+                except BaseException:
+                    out = ('exc', traceback.format_exc()[-3000:])
+                data = pickle.dumps(out)
+                with os.fdopen(w, 'wb') as fw:
+                    fw.write(data)
+            finally:
+                os._exit(0)
+        os.close(w)
+        kids.append((pid, r))
+    import selectors
+    sel = selectors.DefaultSelector()
+    bufs = {}
+    for k, (pid, r) in enumerate(kids):
+        os.set_blocking(r, False)
+        sel.register(r, selectors.EVENT_READ, k)
+        bufs[k] = bytearray()
+    open_n = len(kids)
+    while open_n:
+        for key, _ in sel.select():
+            chunk = os.read(key.fd, 1 << 20)
+            if chunk:
+                bufs[key.data] += chunk
+            else:
+                sel.unregister(key.fd)
+                os.close(key.fd)
+                open_n -= 1
+    results = []
+    for k, (pid, r) in enumerate(kids):
+        os.waitpid(pid, 0)
+        if not bufs[k]:
+            raise RuntimeError(f'pmap worker {k} died without a result (items {bounds[k]})')
+        kind, val = pickle.loads(bytes(bufs[k]))
+        if kind != 'ok':
+            raise RuntimeError('pmap worker raised:\n' + val)
+        results.extend(val)
+    return results
 
 
 # ---------------------------------------------------------------------------------------------------------------------
